@@ -326,10 +326,31 @@ def run(ctx):
     bmm_empty_batch_search(ctx)
     ledger_eps_search(ctx)
     ddp_perlayer_search(ctx)
+    # the reported epsilon is a function of the CURRENT ledger (roll-back to a checkpoint, another run's state loaded, …)
+    from . import c06_lib as L6
+    for i in range(ctx.n(10, 120)):
+        mech = ["rdp", "rdp", "gdp", "prv"][i % 4] if i < ctx.n(8, 60) else "rdp"
+        ctx.count("search:reused-accountant:" + mech)
+        try:
+            res = L6.reused_accountant_oracle(ctx.rng, mech)
+        except Exception as e:  # noqa: BLE001 - GDP refuses what it cannot bracket
+            ctx.count("search:reused-accountant:raised:" + type(e).__name__)
+            continue
+        if res:
+            ctx.property_failure(res[0].replace("C06:", "C05:"), res[1], res[2])
 
 
 def replay(ctx, rp):
     c = rp.get("failing_input") or rp.get("case")
+    if c.get("oracle") == "reused-accountant":
+        from .c06 import replay_reused
+        res = replay_reused(c)
+        if res:
+            print("REPRODUCED:", res[0].replace("C06:", "C05:"), res[1])
+            ctx.violations.append(res[0])
+        else:
+            print("not reproduced on this tree")
+        return
     if "ops" not in c:
         print("replay of shared-ledger cases: rerun ./check C05 with the recorded seed")
         return
